@@ -222,9 +222,20 @@ P.fn(FC + 'Context.addLocal', name='Context.addLocal', params=dict(self='Context
 P.fn('new_unrecognized', params=dict(name='str', bases='opaque', ns='opaque'), returns='Any', trusted=True,
      requires=[PO], ensures=[PO, 'fresh(result)', 'ismacro(result)', 'macroName(result) == name'], allocates=True, modifies=[],
      notes='type(key, (UnrecognizedMacro,), {}): a new macro class whose macro name is the key')
+# Context.isMathMode (read by \ifmmode, by MathShift and by the unrecognised-macro warning): the mode declared by the innermost frame whose
+# object declares one (mathMode not None); text mode when no frame does.
+def DEC(i):
+    return '(not isnone(self.contexts[%s].obj) and not isnone(self.contexts[%s].obj.mathMode))' % (i, i)
+
+
+NC = 'len(self.contexts)'
 P.fn(FC + 'Context.isMathMode', name='Context.isMathMode', params=dict(self='Context'), returns='bool',
-     requires=WF, modifies=[],
-     loops={0: Loop(index='k', inv=['k <= len(self.contexts) - 1', 'k >= -1'], modifies=[])})
+     requires=WF,
+     ensures=['implies(all(not %s for i in range(%s)), result == False)' % (DEC('i'), NC),
+              'all(implies(%s and all(not %s for j in range(i + 1, %s)), result == unopt(self.contexts[i].obj.mathMode)) for i in range(%s))'
+              % (DEC('i'), DEC('j'), NC, NC)],
+     modifies=[],
+     loops={0: Loop(index='k', inv=['k <= len(self.contexts) - 1', 'k >= -1', 'all(not %s for j in range(k + 1, %s))' % (DEC('j'), NC)], modifies=[])})
 P.classes['Context'].props['isMathMode'] = 'Context.isMathMode'
 P.fn(FC + 'Context.__getitem__', name='Context.__getitem__', params=dict(self='Context', key='str'), returns='Any',
      requires=WF + [PO],
@@ -409,3 +420,4 @@ P.assume('Macro.parse leaves the context stack as it found it (argument scanners
 P.unverified_surrounding('that every balanced input leaves depth 1 needs the digest protocol over all macro classes (C07); MathShift.invoke, '
                          'Array.invoke, VerbatimEnvironment.invoke, TeX.input / endInput push and pop through the contracts above but are '
                          'themselves only covered by the bounded history / program checks; get_let (mixed str / Token return) is bounded only')
+
